@@ -37,6 +37,10 @@ type store[V any] interface {
 	Set(*Item[V])
 	// Del deletes the key-value pair from the Map.
 	Del(uint64, uint64) (uint64, V)
+	// DelExpired deletes the key-value pair only if the expiration time that is
+	// currently stored with it has passed as of the given time. It returns the
+	// deleted value and its expiration time.
+	DelExpired(uint64, uint64, time.Time) (V, time.Time, bool)
 	// Update attempts to update the key with a new value and returns true if
 	// successful.
 	Update(*Item[V]) (V, bool)
@@ -125,6 +129,10 @@ func (sm *shardedMap[V]) Set(i *Item[V]) {
 
 func (sm *shardedMap[V]) Del(key, conflict uint64) (uint64, V) {
 	return sm.shards[key%numShards].Del(key, conflict)
+}
+
+func (sm *shardedMap[V]) DelExpired(key, conflict uint64, now time.Time) (V, time.Time, bool) {
+	return sm.shards[key%numShards].delExpired(key, conflict, now)
 }
 
 func (sm *shardedMap[V]) Update(newItem *Item[V]) (V, bool) {
@@ -238,6 +246,27 @@ func (m *lockedMap[V]) Del(key, conflict uint64) (uint64, V) {
 
 	delete(m.data, key)
 	return item.conflict, item.value
+}
+
+func (m *lockedMap[V]) delExpired(key, conflict uint64, now time.Time) (V, time.Time, bool) {
+	m.Lock()
+	defer m.Unlock()
+	item, ok := m.data[key]
+	if !ok {
+		return zeroValue[V](), time.Time{}, false
+	}
+	if conflict != 0 && (conflict != item.conflict) {
+		return zeroValue[V](), time.Time{}, false
+	}
+	// The entry may have been re-written (with a later TTL or without one) after
+	// the sweep picked up its bucket: check and delete under the same lock.
+	if item.expiration.IsZero() || item.expiration.After(now) {
+		return zeroValue[V](), time.Time{}, false
+	}
+
+	m.em.del(key, item.expiration)
+	delete(m.data, key)
+	return item.value, item.expiration, true
 }
 
 func (m *lockedMap[V]) Update(newItem *Item[V]) (V, bool) {
